@@ -104,8 +104,26 @@ def analyse(ck):
            [T.show(o, maxdepth=6)[:300] for e in cons for o in circ.cb_operands(e)])
 
     # ------------------------------------------------------------------ who may call the decompositions / unsafe booleans
+    inl = _gadget_helper_inline(prog)
+
     def callers_of(rx):
-        return sorted(set(bb.path for bb, _, t in prog.call_sites(rx)))
+        """functions that (logically) call a primitive: a private gadget-module helper this rule file does not name is part of the
+        function(s) it was extracted from, so its own callers stand for it"""
+        from . import e2
+        out, seen = set(), set()
+        work = [e2.root_of(prog, bb) for bb, _, t in prog.call_sites(rx)]
+        while work:
+            b_ = work.pop()
+            if b_ is None or b_.id in seen:
+                continue
+            seen.add(b_.id)
+            if inl(b_.path) and (b_.d.get("vis") or "pub") != "pub":
+                ups = [e2.root_of(prog, cb) for cb, _, _ in prog.callers().get(b_.id, [])]
+                if ups:
+                    work += ups
+                    continue
+            out.add(b_.path)
+        return sorted(out)
 
     slh = callers_of(r"CircuitBuilder<F, D>>?::split_low_high$|::split_low_high$")
     ob.add({"C10"}, slh == [COMMON + "::gadgets::split_canonical_u32_halves", COMMON + "::gadgets::u32_lt"], "WMC", "gadget/split_low_high-callers",
